@@ -2,10 +2,10 @@
    Only ExtrOcamlBasic's directives are used (bool, option, list, prod, unit,
    sumbool -> OCaml natives); N, Z, positive, nat and byte stay the Coq
    datatypes. *)
-From SJ Require Import Model.Oracle Model.Oracle2 Model.Oracle3.
+From SJ Require Import Model.Oracle Model.Oracle2 Model.Oracle3 Model.Oracle4.
 From Coq Require Import Extraction ExtrOcamlBasic.
 Extraction Language OCaml.
 (* Coq's List.rev is the quadratic [rev l ++ [x]]; OCaml's List.rev computes the
    same function in linear time.  This is the only Extract Constant directive. *)
 Extract Inlined Constant List.rev => "Stdlib.List.rev".
-Extraction "model.ml" Model.Oracle3.handle_all3 Byte.of_N Byte.to_N.
+Extraction "model.ml" Model.Oracle4.handle_all4 Byte.of_N Byte.to_N.
